@@ -239,3 +239,11 @@ Qed.
 Theorem history_sound e v : covered e = true -> eval_c e = Ok v ->
   exists r, hsem e r /\ good v /\ top_markup v = fst r /\ flat v = snd r.
 Proof. unfold eval_c. apply history_lem. Qed.
+
+Lemma step_split_clean a r sep keep ps : good a /\ top_markup a = fst r /\ flat a = snd r ->
+  (sep = SepNone \/ sep = SepDelim) -> split_c a sep keep = Ok ps ->
+  split_law sep r (map flat ps) /\ Forall (fun p => good p /\ top_markup p = fst r) ps.
+Proof.
+  intros E Hs H. destruct (step_split a r sep keep ps E Hs H) as [L Hp]. split; [exact L|].
+  eapply Forall_impl; [|exact Hp]. intros p [G [T _]]. split; assumption.
+Qed.
